@@ -30,7 +30,7 @@ var c17PlainNames = []string{"act", "Emote", "play_sound", "fx2", "déplacer", "
 // names the lexer reads as keywords although they only begin with one: known finding K3
 var c17K3Names = []string{"elsewhere", "elseifx", "endiffy", "endenumx", "else_", "endifs", "endenumerate", "elsey"}
 
-var c17HostileWords = []string{"true", "false", "TRUE", "True", "False", "-1", "-1.5", "007", "+1", "1e3", ".5", "5.", "0x10", "1_000", "nan", "NaN", "Nan", "inf", "Inf", "Infinity", "-inf", "-", "--1", "a:b", "1.2.3", "1-", "1,5", "0", "-0", "3.14159", "00.50", "12abc", "e", "0b1", "0o7", "1e", "١٢"}
+var c17HostileWords = []string{"true", "false", "TRUE", "True", "False", "-1", "-1.5", "007", "+1", "1e3", ".5", "5.", "0x10", "1_000", "nan", "NaN", "Nan", "inf", "Inf", "Infinity", "-inf", "-", "--1", "a:b", "1.2.3", "1-", "1,5", "0", "-0", "3.14159", "00.50", "12abc", "e", "0b1", "0o7", "1e", "١٢", "t", "f", "T", "F", "yes", "no", "on", "off", "null", "1e-3", "1E3", "0.", "-.5", "+.5", "1/2", "∞", "-1e3", "0e0"}
 var c17PlainWords = []string{"left", "Mae", "dérive", "日本", "x_1", "#hash", "a}b", "\"q\"", "'s'", "$var", "a/b", "a//b", "100%", "(p)", "[m]", "é"}
 
 func (c17) Thresholds(tier string) map[string]int64 {
@@ -197,7 +197,11 @@ func (p c17) Run(c *core.Ctx) {
 		return
 	}
 	stopCalls := 0
-	pair.R.DR.AddCommand("stop", mon.AdaptCmd(func(a []model.Val) error { stopCalls++; pair.RLog.Add("<<stop " + mon.FmtArgs(a) + ">> DISPATCHED"); return nil }))
+	pair.R.DR.AddCommand("stop", mon.AdaptCmd(func(a []model.Val) error {
+		stopCalls++
+		pair.RLog.Add("<<stop " + mon.FmtArgs(a) + ">> DISPATCHED")
+		return nil
+	}))
 	for step := 0; step < 60; step++ {
 		want, got, diff := pair.Step(0)
 		c.Event(want.Kind.String(), 1)
